@@ -25,6 +25,7 @@
 
 import functools
 import re
+import unicodedata
 from .prologVisitor import prologVisitor
 from .errors import CompilerError
 
@@ -247,6 +248,12 @@ class YPPrologVisitor(prologVisitor):
 
     def visitClause(self,ctx):
         lhs = self.visitSimplepredicate(ctx.simplepredicate())
+        if isinstance(lhs, Predicate):
+            # the predicate becomes the Python function <name>_<arity>
+            name = lhs.name()
+            if not (name.isidentifier() and unicodedata.normalize('NFKC', name) == name):
+                raise CompilerError(self.context.current_source_file, ctx.simplepredicate(),
+                        f"cannot define a predicate named {name!r}: not usable in a Python function name")
         if ctx.predicateexpression():
             rhs = self.visitPredicateexpression(ctx.predicateexpression())
         else:
